@@ -73,6 +73,20 @@ def main(argv, backend='make', pid='C01', ninja=None):
     # 1. design model, exhaustive within the bound; the set of failing
     #    (context, word) pairs is the model's prediction
     maxlen = 2 if ck.quick else 3
+    if backend == 'ninja':
+        r = tlc_ok('NinjaArgs', 'CONSTANTS\n MaxLen = %d\n Alpha <- AlphaDef\n'
+                   'SPECIFICATION Spec\nINVARIANT Report\nCHECK_DEADLOCK FALSE'
+                   '\n' % (maxlen + 1), defs='AlphaDef == ' + tla_set(TLA_ALPHA))
+        ck.add_model(r, 'NinjaArgs design model, words <= %d over %d symbols'
+                     % (maxlen + 1, len(TLA_ALPHA)))
+        ck.note('design_model_failing_words',
+                sum(1 for l in r.out.splitlines() if l.startswith('<<"FAIL"')))
+    else:
+        design_make(ck, maxlen)
+    real_pipeline(ck, backend, pid, ninja, maxlen)
+
+
+def design_make(ck, maxlen):
     r = tlc_ok('MakeArgs', mc_cfg(maxlen, ['recipe', 'var', 'tvar']),
                defs='AlphaDef == ' + tla_set(TLA_ALPHA))
     # vacuity guard: without the assignment escaping the model must fail
@@ -94,7 +108,8 @@ def main(argv, backend='make', pid='C01', ninja=None):
                     for c in ('recipe', 'var', 'tvar')}
     ck.note('design_model_failing_words', fails_by_ctx)
 
-    # 2. the real pipeline
+
+def real_pipeline(ck, backend, pid, ninja, maxlen):
     slots = ap.make_slots(plan(ck))
     events = ap.run_all(slots, backend, ninja, seed=ck.seed)
     traces, byid = [], {}
@@ -123,6 +138,9 @@ def main(argv, backend='make', pid='C01', ninja=None):
                                          for _ in ()):
             pass
     ck.note('positions', ap.POSITIONS)
+    ck.note('env_model_mismatches',
+            st['info'].get('ENV-MODEL-MISMATCH', 0))
+    ck.drift = st['info'].get('SPEC-DRIFT', 0)
     for tid in (1, len(traces) // 2, len(traces)):
         s, ev = byid[tid]
         ck.sample({'pos': s.pos, 'word': s.word, 'event': ev})
